@@ -151,6 +151,22 @@ def check_history(case):
             gens.append([iter(it), ref.occ(p, t), [], P, t, False])
             used.setdefault(op[1] % len(pool), set()).add(t)
             continue
+        if op[0] == "abort":
+            # an earlier search on the same pattern object that was aborted part-way by an
+            # asynchronous exception (at the k-th line of perm.py) is an earlier use too
+            import permuta.patterns.perm as perm_mod
+
+            from .. import disturb
+
+            P, p = pool[op[1] % len(pool)]
+            t = tuple(op[2])
+            status, got, _ = disturb.abort_at(lambda: list(P.occurrences_in(Perm(t))), {perm_mod.__file__}, op[3])
+            if status == "done" and got != ref.occ(p, t):
+                return BAD("history_list", {"step": step, "pattern": list(p), "target": list(t), "got": got, "expected": ref.occ(p, t)})
+            if status == "aborted":
+                overlapped = True
+            used.setdefault(op[1] % len(pool), set()).add(t)
+            continue
         if op[0] == "adv":
             if not gens:
                 continue
@@ -254,9 +270,12 @@ def history_cases(draw):
     for _ in range(nops):
         idx = draw(st.integers(0, len(pool) - 1))
         p = pool[idx][1]
-        kind = draw(st.integers(0, 5))
+        kind = draw(st.integers(0, 6))
         if kind == 0:
             ops.append(["lazy", idx, list(draw(_plant(p)))])
+            continue
+        if kind == 6:
+            ops.append(["abort", idx, list(draw(_plant(p))), int(2 ** draw(st.floats(0, 8)))])
             continue
         if kind == 1:
             ops.append(["adv", draw(st.integers(0, 3)), draw(st.integers(1, 6))])
